@@ -3,6 +3,10 @@ Model of `huffman/src/lib.rs`: symbol representation, compressor (spec form: con
 bits, LSB-first packing), decompressor (bit-serial tree walk with zero extension after the input and
 an output capacity).  The table is a parameter; the built-in one is `Tw.Gen.Huffman.table`
 (regenerated from `huffman/src/instances/teeworlds.rs` on every run).
+
+Other models import `compress`, `compressInto`, `decompress`, `DecResult` from here.
+The streaming form of the Rust compressor (`compress_impl_unsafe`) is `Tw.Model.HuffmanStream`,
+`from_frequencies` is `Tw.Model.HuffmanFreq`, the C++ reference is `Tw.Model.HuffmanRef`.
 -/
 namespace Tw.Huffman
 
@@ -13,32 +17,50 @@ def NUM_SYMBOLS : Nat := 257
 def NUM_NODES : Nat := 513
 def ROOT_IDX : Nat := 512
 
+/-- `self.nodes[i]`; the default is `NODE_SENTINEL` (an out-of-range index panics in the Rust; it
+is excluded by `WellFormed`). -/
 def node (t : Table) (i : Nat) : Nat × Nat := t.getD i (65535, 65535)
 
+/-- table lookup as a function; everything that `WellFormed` evaluates is defined over a `Look` so
+that the kernel can check the built-in table through a cheap arithmetic lookup -/
+abbrev Look := Nat → Nat × Nat
+
 /-- `Node::to_symbol_repr().bits` -/
-def symBits (t : Table) (s : Nat) : Nat := ((node t s).1 % 256) * 65536 + (node t s).2
+def symBitsF (look : Look) (s : Nat) : Nat := ((look s).1 % 256) * 65536 + (look s).2
 /-- `Node::to_symbol_repr().num_bits` -/
-def symLen (t : Table) (s : Nat) : Nat := (node t s).1 / 256
+def symLenF (look : Look) (s : Nat) : Nat := (look s).1 / 256
+
+def symBits (t : Table) (s : Nat) : Nat := symBitsF (node t) s
+def symLen (t : Table) (s : Nat) : Nat := symLenF (node t) s
+
+/-- the `k` low bits of `n`, least significant first -/
+def natBits : Nat → Nat → List Bool
+  | 0, _ => []
+  | k + 1, n => (n % 2 == 1) :: natBits k (n / 2)
+
+/-- value of a bit list, least significant first -/
+def bitsToNat : List Bool → Nat
+  | [] => 0
+  | b :: bs => (if b then 1 else 0) + 2 * bitsToNat bs
+
+def codeBitsF (look : Look) (s : Nat) : List Bool := natBits (symLenF look s) (symBitsF look s)
 
 /-- the code of symbol `s`, first transmitted bit first (`SymbolRepr::bit(0)`, …) -/
-def codeBits (t : Table) (s : Nat) : List Bool :=
-  (List.range (symLen t s)).map fun i => (symBits t s / 2 ^ i) % 2 = 1
+def codeBits (t : Table) (s : Nat) : List Bool := codeBitsF (node t) s
 
 /-- the bit stream of an input: codes of all bytes, then of EOF -/
 def streamBits (t : Table) (xs : List UInt8) : List Bool :=
   (xs.map (·.toNat) ++ [EOF]).flatMap (codeBits t)
 
-def bitsToByte (bs : List Bool) : UInt8 :=
-  UInt8.ofNat ((bs.zipIdx.map fun (b, i) => if b then 2 ^ i else 0).sum)
+/-- pack bits into bytes, least significant bit first, zero padding in the last byte;
+`k` bits with value `acc` are pending for the current byte -/
+def packGo : List Bool → Nat → Nat → List UInt8
+  | [], k, acc => if k = 0 then [] else [UInt8.ofNat acc]
+  | b :: bs, k, acc =>
+    let acc' := acc + (if b then 2 ^ k else 0)
+    if k ≥ 7 then UInt8.ofNat acc' :: packGo bs 0 0 else packGo bs (k + 1) acc'
 
-/-- pack bits into bytes, least significant bit first, zero padding in the last byte -/
-def packBits : List Bool → List UInt8
-  | [] => []
-  | b :: bs =>
-    let chunk := (b :: bs).take 8
-    bitsToByte chunk :: packBits ((b :: bs).drop 8)
-termination_by l => l.length
-decreasing_by simp [List.length_drop]; omega
+def packBits (bs : List Bool) : List UInt8 := packGo bs 0 0
 
 /-- `compress` (`bug = false`) and `compress_bug` (`bug = true`, the reference-compatible form
 that emits an extra zero byte when the stream ends on a byte boundary), without capacity limit. -/
@@ -68,9 +90,13 @@ inductive StepResult where
   | done (out : List UInt8)
   | capacity
 
+/-- `node.children[bit as usize]` -/
+def childF (look : Look) (nd : Nat) (bit : Bool) : Nat := if bit then (look nd).2 else (look nd).1
+def child (t : Table) (nd : Nat) (bit : Bool) : Nat := childF (node t) nd bit
+
 /-- one bit of `decompress_unsafe` -/
 def decStep (t : Table) (cap : Nat) (nd : Nat) (out : List UInt8) (bit : Bool) : StepResult :=
-  let idx := if bit then (node t nd).2 else (node t nd).1
+  let idx := child t nd bit
   if idx ≥ NUM_SYMBOLS then .cont idx out
   else if idx = EOF then .done out
   else if out.length ≥ cap then .capacity
@@ -98,7 +124,7 @@ def decZeros (t : Table) (cap : Nat) : Nat → Nat → List UInt8 → DecResult
     | .done out' => .ok out'.reverse
     | .capacity => .capacity
 
-def byteBits (b : UInt8) : List Bool := (List.range 8).map fun i => (b.toNat / 2 ^ i) % 2 = 1
+def byteBits (b : UInt8) : List Bool := natBits 8 b.toNat
 
 /-- fuel for the zero tail: every `NUM_NODES` steps at least one byte is output -/
 def zeroFuel (cap : Nat) : Nat := (cap + 2) * (NUM_NODES + 1)
@@ -108,5 +134,45 @@ def decompress (t : Table) (input : List UInt8) (cap : Nat) : DecResult :=
   match decBits t cap ROOT_IDX [] (input.flatMap byteBits) with
   | .fin r => r
   | .more nd out => decZeros t cap (zeroFuel cap) nd out
+
+/-- `Huffman::decompress_into_vec`: capacity `8 * input.len()`, both errors are `InvalidInput` -/
+def decompressVec (t : Table) (input : List UInt8) : Option (List UInt8) :=
+  match decompress t input (8 * input.length) with
+  | .ok out => some out
+  | _ => none
+
+/-! ### Well-formed tables (decidable) -/
+
+/-- follow `bits` from inner node `nd`; `some s` iff the last bit, and no earlier one, lands on
+leaf `s` -/
+def walkF (look : Look) : Nat → List Bool → Option Nat
+  | _, [] => none
+  | nd, b :: bs =>
+    let idx := childF look nd b
+    if idx ≥ NUM_SYMBOLS then walkF look idx bs
+    else if bs.isEmpty then some idx else none
+
+/-- inner node: both children have smaller indices and differ -/
+def innerOkF (look : Look) (i : Nat) : Bool :=
+  decide ((look i).1 < i) && decide ((look i).2 < i) && decide ((look i).1 ≠ (look i).2)
+
+/-- symbol entry: `0 < len ≤ 24`, the stored bits fit in `len` bits, and walking them from the root
+reaches exactly this leaf -/
+def leafOkF (look : Look) (s : Nat) : Bool :=
+  decide (0 < symLenF look s) && decide (symLenF look s ≤ 24)
+    && decide (symBitsF look s < 2 ^ symLenF look s)
+    && (walkF look ROOT_IDX (codeBitsF look s) == some s)
+
+def okAtF (look : Look) (i : Nat) : Bool := if i < NUM_SYMBOLS then leafOkF look i else innerOkF look i
+
+def walk (t : Table) : Nat → List Bool → Option Nat := walkF (node t)
+def okAt (t : Table) (i : Nat) : Bool := okAtF (node t) i
+
+def WellFormed (t : Table) : Prop := t.size = NUM_NODES ∧ ∀ i, i < NUM_NODES → okAt t i = true
+
+instance (t : Table) : Decidable (WellFormed t) := by unfold WellFormed; exact inferInstance
+
+/-- range form used to split the kernel evaluation for the built-in table -/
+def okRangeF (look : Look) (lo n : Nat) : Bool := (List.range' lo n).all (okAtF look)
 
 end Tw.Huffman
